@@ -12,7 +12,7 @@ use std::sync::OnceLock;
 
 pub fn monitor_c05() -> Monitor {
   Monitor { id: "C05",
-    rule: "cones: centres from the sphere / pole (log-uniform 1e-12..0.05 from it, and exact) / seam meridians k.pi/4 / transition-latitude generators, exact cell centres and cell vertices; radii: log-uniform 1e-10..pi, 1e-3..60 cell sizes of the query depth, radii at (1 +- {1e-12,1e-6,1e-3,1e-2,3e-2,5e-2}) x each best_starting_depth threshold (located by bisection), r > pi/2 and r -> pi, nearly-all-sky cones at query depths 12..25 whose excluded cap is 1e-3..60 cells wide (machines with > 40 GB); query depth 0..29 (internal depth+delta <= 29) with radius/cell <= 60 so that the result stays small; variants approx, custom(delta 0..4), flat. Oracle: >= 200 witness points strictly inside the cone (64 evenly spaced bearings at 0.999999 r, random rho) hashed with the crate's hash must be covered by the BMOC (cell or ancestor); for depth <= 4 every cell with one of 25 inner grid points inside the cone must be covered. Non-trivial = cone containing a pole, touching a seam meridian or the transition latitude, radius within 5% of a threshold, radius > pi/2, delta > 0, or centre exactly at a cell centre/vertex.",
+    rule: "cones: centres from the sphere / pole (log-uniform 1e-12..0.05 from it, and exact) / seam meridians k.pi/4 / transition-latitude generators, exact cell centres and cell vertices; radii: log-uniform 1e-10..pi, 1e-3..60 cell sizes of the query depth, radii at (1 +- {1e-12,1e-6,1e-3,1e-2,3e-2,5e-2}) x each best_starting_depth threshold (located by bisection), r > pi/2 and r -> pi, nearly-all-sky cones at query depths 12..25 whose excluded cap is 1e-3..60 cells wide (machines with > 40 GB); query depth 0..29 (internal depth+delta <= 29) with radius/cell <= 60 so that the result stays small; variants approx, custom(delta 0..4), flat. Oracle: >= 200 witness points strictly inside the cone (64 evenly spaced bearings at 0.999999 r, random rho) hashed with the crate's hash must be covered by the BMOC (cell or ancestor); for depth <= 4 every cell with one of 25 inner grid points inside the cone must be covered; for r > pi/2, 32 more witnesses just outside the excluded cap around the antipode of the centre (at (1 + {1e-6..0.3}) x (pi - r), or pi - r + {1e-6..0.3} cells, from the antipode; distances measured from the antipode). Non-trivial = cone containing a pole, touching a seam meridian or the transition latitude, radius within 5% of a threshold, radius > pi/2, delta > 0, or centre exactly at a cell centre/vertex.",
     assumptions: &["Layer::hash (C01) locates the witnesses", "witnesses are kept only if their accurately recomputed distance is <= r(1-1e-9)"],
     run, replay }
 }
@@ -191,6 +191,25 @@ pub fn judge(ctx: &mut Ctx, c: &Case) {
     let h = match catch(|| layer.hash(p.0, p.1)) { Ok(h) => h, Err(_) => continue };
     wit_cells.push((h, p, d));
     if cover.get(depth, h).is_none() && missed.is_none() { missed = Some((p, h, d)); }
+  }
+  // radius > pi/2: witnesses just outside the excluded cap (radius rho = pi - r around the antipode of the centre), i.e. just inside the
+  // cone on its far side, placed and validated with distances measured from the antipode (near pi the direct distance resolves 1e-8 only)
+  if r > PI / 2.0 && r < PI {
+    let rho = PI - r; let anti = ((lon + PI).rem_euclid(TWO_PI), -lat); let tol = far_tol(2e-13, lon);
+    for k in 0..32 {
+      let u = [1e-6, 1e-3, 0.03, 0.3][k % 4]; let th = (k as f64 + 0.4) * TWO_PI / 32.0;
+      let cellw = 1.0 / nside(depth + dd) as f64;
+      let da = if k % 8 < 4 { rho * (1.0 + u) + 2.0 * tol } else { rho + u * cellw + 2.0 * tol };
+      if !(da < PI / 2.0) { continue; }
+      let p = point_at(anti.0, anti.1, da, th);
+      let d_anti = dist(p, anti);
+      if !(d_anti >= rho * (1.0 + 1e-9) + tol) { continue; }
+      n_wit += 1;
+      let h = match catch(|| layer.hash(p.0, p.1)) { Ok(h) => h, Err(_) => continue };
+      wit_cells.push((h, p, PI - d_anti));
+      if cover.get(depth, h).is_none() && missed.is_none() { missed = Some((p, h, PI - d_anti)); }
+    }
+    ctx.hard("cone:far-side-witnesses(next-to-the-excluded-cap)", &fp);
   }
   // directed witnesses for large cones: the coarse cells (levels 0..2) that the cone only grazes at a vertex. The witness is the vertex moved
   // towards the cell centre by a quarter of its depth inside the cone: inside the cell and inside the cone.
